@@ -200,7 +200,10 @@ def generate(r, tier, index):
     prior = r.random() < 0.25
     if not prior and r.random() < 0.15:
         prior = 'reeval'      # the tree itself is evaluated, then changed in place (top-level leaves replaced), then evaluated again
-    return {'struct': root, 'mode': mode, 'assign': assign, 'n_stage': n_stage, 'route': route, 'tag': r.choice(['!xref', '!ref']), 'prior': prior}
+    # a twentieth of the builds run in a re-executed interpreter started with -O (long chains excepted: they take too long to afford twice)
+    optimised = r.random() < 0.05 and not any(k == 'c100' for k, _ in root['items'])
+    return {'struct': root, 'mode': mode, 'assign': assign, 'n_stage': n_stage, 'route': route, 'tag': r.choice(['!xref', '!ref']), 'prior': prior,
+            'optimised': optimised}
 
 
 def _reeval_struct(root):
@@ -480,11 +483,44 @@ def _child(sc):
     return res
 
 
+def _optimised_child(sc):
+    """The same child in a re-executed interpreter started with -O (assert statements are stripped): the answer must not depend on it."""
+    import json
+    import os
+    import subprocess
+    import sys
+    env = dict(os.environ)
+    env['PYTHONPATH'] = core.VERIF
+    env['PYTHONDONTWRITEBYTECODE'] = '1'
+    env.setdefault('PYTHONHASHSEED', '0')
+    try:
+        p = subprocess.run([sys.executable, '-O', '-c', 'from aysim.props import c09; c09._o_worker()'], input=json.dumps(sc).encode(), env=env,
+                           stdout=subprocess.PIPE, stderr=subprocess.PIPE, timeout=400, cwd=core.VERIF)
+    except subprocess.TimeoutExpired:
+        return {'status': 'timeout', 'journal': [{'liveness': 'no answer from the -O interpreter within 400 s'}]}
+    if p.returncode == 77:      # the scheduler gave up on an operation that ignores SimTimeout
+        return {'status': 'timeout', 'journal': [{'liveness': 'operation could not be aborted (-O interpreter)'}]}
+    if p.returncode != 0:
+        return {'status': 'error', 'error': p.stderr.decode()[-800:], 'journal': []}
+    return {'status': 'ok', 'value': json.loads(p.stdout.decode().strip().splitlines()[-1]), 'journal': []}
+
+
+def _o_worker():
+    import json
+    import sys
+    core.bootstrap()
+    assert_stripped = True
+    assert not (assert_stripped := False) or True      # stays True only under -O
+    out = _child(json.loads(sys.stdin.read()))
+    out['assert_stripped'] = assert_stripped
+    print(json.dumps(out, default=repr))
+
+
 def execute(sc):
     res = core.ok_result()
     st = res['stats']
     bad, final = model(sc['struct'])
-    c = core.fork_call(_child, (sc,), timeout=240.0)
+    c = _optimised_child(sc) if sc.get('optimised') else core.fork_call(_child, (sc,), timeout=240.0)
     live = [j['liveness'] for j in c.get('journal', []) if 'liveness' in j]
     if c['status'] == 'timeout' or (c['status'] == 'crash' and live) or (c['status'] == 'error' and live):
         if live:
@@ -498,6 +534,11 @@ def execute(sc):
     st['runs'] = 1
     st.setdefault('outcomes', {})[v['status'] + ':' + (bad or 'acyclic')] = 1
     st.setdefault('probes', {})['max_op_lines'] = v['lines']
+    if sc.get('optimised'):
+        st.setdefault('probes', {})['interpreter_with_-O'] = 1
+        if not v.get('assert_stripped'):
+            res['harness'] = 'the -O worker did not run with assertions stripped'
+            return res
     if v.get('prior'):
         st.setdefault('faults', {})[('tree_evaluated_changed_evaluated_again:' if sc.get('prior') == 'reeval' else 'earlier_build_same_context:') + v['prior'].split(':')[0]] = 1
     chain_len = max([0] + [int(k[1:]) + 1 for k, _ in sc['struct']['items'] if k.startswith('c') and k[1:].isdigit()])
@@ -537,6 +578,10 @@ def shrink(sc):
         c = copy.deepcopy(sc)
         del c['struct']['items'][i]
         del c['assign'][i]
+        yield c
+    if sc.get('optimised'):
+        c = copy.deepcopy(sc)
+        c['optimised'] = False
         yield c
     if sc.get('prior'):
         c = copy.deepcopy(sc)
